@@ -123,7 +123,9 @@ def judgeCore (e : Env) (feature : String) (r : NRange) (h : Option Hit) : Optio
   match kind with
   | .account =>
     if sb == name then return none
-    return bad (if sb == name ++ [32] then "account-trailing-blank" else "") "an account"
+    return bad (if sb == name ++ [32] then "account-trailing-blank"
+                else if name.getLast? == some 32 && s.getLast? == some '\t' && txtBytes s.dropLast == name.dropLast
+                  then "account-directive-tab" else "") "an account"
   | .commodity =>
     if sb == name || sb == [34] ++ name ++ [34] then return none
     return bad (if quotedDirective e h then "quoted-commodity-directive"
